@@ -171,8 +171,19 @@ func (c Cap) InteriorIntersects(other Cap) bool {
 	if c.radius <= 0 || other.IsEmpty() {
 		return false
 	}
+	// The full cap has no boundary: its interior contains every point.
+	if c.IsFull() {
+		return true
+	}
 
-	return c.radius.Add(other.radius) > ChordAngleBetweenPoints(c.center, other.center)
+	sum := c.radius.Add(other.radius)
+	dist := ChordAngleBetweenPoints(c.center, other.center)
+	if sum >= s1.StraightChordAngle {
+		// ChordAngle.Add clamps the sum at 180 degrees, which would make caps
+		// with antipodal centers never intersect. Compare the angles instead.
+		return c.Radius()+other.Radius() > dist.Angle()
+	}
+	return sum > dist
 }
 
 // ContainsPoint reports whether this cap contains the point.
